@@ -93,8 +93,10 @@ def class_ranges(body, what):
 
 
 def coq_ranges(name, rs, comment):
-    body = "; ".join("(%d, %d)" % r for r in rs)
-    return "(* %s *)\nDefinition %s : list (N * N) := [ %s ]%%N.\n" % (comment, name, body)
+    """a class = (single code points, proper ranges); the split only makes membership cheaper to evaluate"""
+    singles = "; ".join("%d" % lo for lo, hi in rs if lo == hi)
+    ranges = "; ".join("(%d, %d)" % (lo, hi) for lo, hi in rs if lo != hi)
+    return "(* %s *)\nDefinition %s : list N * list (N * N) := ([ %s ]%%N, [ %s ]%%N).\n" % (comment, name, singles, ranges)
 
 
 def coq_text(s):
